@@ -39,6 +39,9 @@ let handle fields impl : string option * string list =
   | ["enc"; items] ->
     let l = Util.items_of_string items in
     (Some (Util.hex_of_bytes (ub (encode_contents (bl l)))), [])
+  | ["encn"; items] ->
+    let m = Util.hex_of_bytes (ub (encode_contents (bl (Util.items_of_string items)))) in
+    (Some m, if impl = m then [] else ["empty-item-spelled-nil-dropped-or-misencoded"])
   | ["rejoin"; items] ->
     (* join(split(join l)) = join l, twice over the same split items, and the split items are still l *)
     let m = Util.hex_of_bytes (ub (encode_contents (bl (Util.items_of_string items)))) in
